@@ -29,7 +29,8 @@ type Clnt struct {
 	conn     net.Conn
 	tagpool  *Pool
 	reqout   chan *Req
-	done     chan bool
+	done     chan bool // closed by recv when the connection has failed
+	sendDone chan bool // closed by send when it returns
 	reqfirst *Req
 	reqlast  *Req
 	err      error
@@ -110,7 +111,13 @@ func (clnt *Clnt) Rpcnb(r *Req) error {
 	clnt.Unlock()
 
 	verifCPoint("rpcnb_handoff", clnt, r)
-	clnt.reqout <- r
+	select {
+	case clnt.reqout <- r:
+	case <-clnt.done:
+		// The connection failed after r was queued and the writer is
+		// gone (or going). recv fails every queued request through its
+		// Done channel, r included.
+	}
 	return nil
 }
 
@@ -239,7 +246,12 @@ func (clnt *Clnt) recv() {
 
 closed:
 	verifCPoint("crecv_closed", clnt, nil)
-	clnt.done <- true
+	// Stop the writer and wait until it has let go of the request it may
+	// be holding: requests are recycled by their callers once failed below.
+	// Closing the socket unblocks a writer stuck in Write.
+	_ = clnt.conn.Close()
+	close(clnt.done)
+	<-clnt.sendDone
 
 	/* send error to all pending requests */
 	clnt.Lock()
@@ -279,6 +291,7 @@ closed:
 }
 
 func (clnt *Clnt) send() {
+	defer close(clnt.sendDone)
 	for {
 		select {
 		case <-clnt.done:
@@ -331,6 +344,7 @@ func NewClnt(c net.Conn, msize uint32, dotu bool) *Clnt {
 	clnt.tagpool = NewPool(0, uint32(NOTAG))
 	clnt.reqout = make(chan *Req)
 	clnt.done = make(chan bool)
+	clnt.sendDone = make(chan bool)
 	clnt.reqchan = make(chan *Req, 16)
 	clnt.tchan = make(chan *Fcall, 16)
 
